@@ -68,6 +68,7 @@ LISTENERS = [[], [{"kind": "pass"}], [{"kind": "handled", "code": {"kind": "int"
              [{"kind": "pass"}, {"kind": "fail", "exc": {"type": "KeyboardInterrupt"}}],
              [{"kind": "handled", "code": {"kind": "none"}, "stop": False}]]
 VERBOSITIES = [0, 1, 2, 4]
+ENCODINGS = [["ascii", "ascii"], ["utf-8", "ascii"], ["ascii", "utf-8"], ["latin-1", "utf-8"], ["utf-8", "utf-8"]]
 LINES = [["cmd", "x"], ["nope"], ["cmd", "--unknown"], ["cmd", "x", "y", "z"]]
 
 
@@ -82,6 +83,14 @@ def generate(tier, rng):
         full = keep
     for (o, l, v, ansi, ln) in full:
         yield {"outcome": OUTCOMES[o], "listeners": LISTENERS[l], "verbosity": v, "ansi": ansi, "tokens": LINES[ln]}
+    # ---- real text streams with an encoding of their own (UTF-8, ASCII, latin-1; the two streams of an I/O need not
+    # agree): the report of every exception must still be printed and the status returned (repaired D36)
+    for o, out in enumerate(OUTCOMES):
+        if "raise" not in out:
+            continue
+        for enc in ENCODINGS:
+            for v in ((0, 4) if tier == "quick" else VERBOSITIES):
+                yield {"outcome": out, "listeners": [], "verbosity": v, "ansi": False, "tokens": LINES[0], "enc": enc}
 
 
 def exhaustive(tier):
@@ -129,7 +138,19 @@ def run_impl(case):
     from clikit.args.argv_args import ArgvArgs
     from clikit.formatter import AnsiFormatter, PlainFormatter
     from clikit.io.buffered_io import BufferedIO
-    io = BufferedIO(formatter=AnsiFormatter(forced=True) if case["ansi"] else PlainFormatter())
+    fmt = AnsiFormatter(forced=True) if case["ansi"] else PlainFormatter()
+    raw = None
+    if case.get("enc"):
+        import io as _io
+        from clikit.api.io import IO, Input, Output
+        from clikit.io.input_stream.string_input_stream import StringInputStream
+        from clikit.io.output_stream.stream_output_stream import StreamOutputStream
+        raw = [_io.BytesIO(), _io.BytesIO()]
+        streams = [_io.TextIOWrapper(b, encoding=e) for b, e in zip(raw, case["enc"])]
+        io = IO(Input(StringInputStream("")), Output(StreamOutputStream(streams[0]), fmt),
+                Output(StreamOutputStream(streams[1]), fmt))
+    else:
+        io = BufferedIO(formatter=fmt)
     io.set_verbosity(case["verbosity"])
     del H.CALLS[:]
     app = _app(case, io)
@@ -138,7 +159,10 @@ def run_impl(case):
         escaped = None
     except BaseException as e:  # noqa
         status, escaped = None, type(e).__name__
-    out = io.fetch_output() + io.fetch_error()
+    if raw is not None:
+        out = "".join(b.getvalue().decode(e) for b, e in zip(raw, case["enc"]))
+    else:
+        out = io.fetch_output() + io.fetch_error()
     return {"status": status if (status is None or isinstance(status, int)) else repr(status), "escaped": escaped,
             "reported": bool(out.strip()), "calls": len(H.CALLS), "call_args": [c["arguments"] for c in H.CALLS],
             "status_type": type(status).__name__}
